@@ -291,8 +291,26 @@ def _part_b(case: dict, root: str) -> dict:
 
     first, second = (cbt, ca) if case.get("swap") else (ca, cbt)
 
+    # which argument the inconsistent catalog is: every catalog that takes part must reach the guard
+    role = case.get("bad_role") or ["unknown", "unk_rand_only", "ref_rand_only", "both_randoms_given"][case.get("sched_seed", 0) % 4]
+
+    twin = None
+    if case["entry"] == "cross" and role in ("unk_rand_only", "ref_rand_only"):
+        # a second catalog that is consistent with the first one (a copy of its cache): reference and
+        # unknown sample must be different caches (binned and unbinned trees)
+        with sequential_mode():
+            twin_dir = str(first.cache_directory) + "_twin"
+            shutil.copytree(str(first.cache_directory), twin_dir)
+            twin = yaw.Catalog(twin_dir, max_workers=1)
+
     def main():
         if case["entry"] == "cross":
+            if role == "unk_rand_only":
+                return yaw.crosscorrelate(config, first, twin, ref_rand=first, unk_rand=second, max_workers=None)
+            if role == "ref_rand_only":
+                return yaw.crosscorrelate(config, first, twin, ref_rand=second, unk_rand=twin, max_workers=None)
+            if role == "both_randoms_given":
+                return yaw.crosscorrelate(config, first, second, ref_rand=first, unk_rand=second, max_workers=None)
             return yaw.crosscorrelate(config, first, second, unk_rand=second, max_workers=None)
         return yaw.autocorrelate(config, first, second, max_workers=None)
 
@@ -310,6 +328,7 @@ def _part_b(case: dict, root: str) -> dict:
             verdict="ok" if sig is None else "violation",
             digest=sim.digest(), nontrivial=sim.multi_choice_steps > 0, steps=sim.steps,
             probes={f"refusal_{kind}": 1, f"refusal_exc_{type(sim.main.exc).__name__}": 1,
+                    **({f"inconsistent_catalog_as_{role}": 1} if case["entry"] == "cross" else {}),
                     "misaligned_first_and_smaller": int(bool(case.get("swap")) and case.get("big") == "A" and kind in ("displaced", "permuted"))}, head=sim.head(20), choices=list(sim.choices),
         )
         if sig is not None:
